@@ -22,9 +22,16 @@ pub mod clock {
         pub cv: LCondvar,
     }
 
+    /// What to do when a registered deadline is reached.
+    #[derive(Clone)]
+    pub enum Wake {
+        Cv(StdArc<Aux>),
+        Call(StdArc<dyn Fn() + Send + Sync>),
+    }
+
     struct State {
         now: u64,
-        waiters: Vec<(u64, u64, StdArc<Aux>)>,
+        waiters: Vec<(u64, u64, Wake)>,
         next: u64,
         /// first value each thread obtained from `Instant::now()` (harness introspection)
         first_reads: Vec<(::loom::thread::ThreadId, u64)>,
@@ -69,13 +76,17 @@ pub mod clock {
     }
 
     pub fn register(deadline: u64, aux: &StdArc<Aux>) -> Option<u64> {
+        register_wake(deadline, Wake::Cv(aux.clone()))
+    }
+
+    pub fn register_wake(deadline: u64, wake: Wake) -> Option<u64> {
         let mut c = CLOCK.lock().unwrap();
         if c.now >= deadline {
             return None;
         }
         let id = c.next;
         c.next += 1;
-        c.waiters.push((id, deadline, aux.clone()));
+        c.waiters.push((id, deadline, wake));
         Some(id)
     }
 
@@ -86,7 +97,7 @@ pub mod clock {
     /// Harness only: move virtual time forward and wake every timed waiter
     /// whose deadline has passed.
     pub fn advance(nanos: u64) {
-        let due: Vec<StdArc<Aux>> = {
+        let due: Vec<Wake> = {
             let mut c = CLOCK.lock().unwrap();
             c.now += nanos;
             let now = c.now;
@@ -96,9 +107,14 @@ pub mod clock {
                 .map(|w| w.2.clone())
                 .collect()
         };
-        for a in due {
-            let _g = a.m.lock().unwrap();
-            a.cv.notify_all();
+        for w in due {
+            match w {
+                Wake::Cv(a) => {
+                    let _g = a.m.lock().unwrap();
+                    a.cv.notify_all();
+                }
+                Wake::Call(f) => f(),
+            }
         }
     }
 
@@ -160,6 +176,10 @@ pub mod std_shadow {
                 Duration::from_nanos(self.0.saturating_sub(o.0))
             }
         }
+    }
+
+    pub mod net {
+        pub use crate::verif_loom::net_shadow::*;
     }
 
     pub mod thread {
@@ -325,8 +345,383 @@ pub mod std_shadow {
     }
 }
 
-/// Placeholder channel module; the blocking-client shim replaces it.
+/// `std::sync::mpsc` look-alike layered on loom's own channel (which has
+/// neither timeouts nor disconnect notification): every payload travels as
+/// `Item::Msg`; the virtual clock injects `Item::Tick` when a `recv_timeout`
+/// deadline passes; dropping the last `Sender` clone injects `Item::Closed`.
 pub mod mpsc_shadow {
-    pub use ::loom::sync::mpsc::{Receiver, Sender, channel};
+    use crate::verif_loom::clock;
+    use ::std::sync::Arc as StdArc;
+    use ::std::sync::atomic::{AtomicUsize, Ordering};
     pub use ::std::sync::mpsc::{RecvError, RecvTimeoutError, SendError, TryRecvError};
+    use ::std::time::Duration;
+
+    enum Item<T> {
+        Msg(T),
+        Tick,
+        Closed,
+    }
+
+    /// Keeps loom's receiver alive until the last sender, receiver or timer
+    /// callback is gone: loom reports a message sent after the receiver was
+    /// dropped as a leak, whereas with std it is simply discarded.
+    struct Shared<T> {
+        rx: ::std::sync::Mutex<::loom::sync::mpsc::Receiver<Item<T>>>,
+    }
+
+    pub struct Sender<T> {
+        inner: ::loom::sync::mpsc::Sender<Item<T>>,
+        live: StdArc<AtomicUsize>,
+        _shared: StdArc<Shared<T>>,
+    }
+
+    pub struct Receiver<T> {
+        shared: StdArc<Shared<T>>,
+        /// used only by the clock to inject ticks; not counted as a live sender
+        tick: ::loom::sync::mpsc::Sender<Item<T>>,
+        closed: ::std::cell::Cell<bool>,
+    }
+
+    pub fn channel<T: Send + 'static>() -> (Sender<T>, Receiver<T>) {
+        let (tx, rx) = ::loom::sync::mpsc::channel::<Item<T>>();
+        let tick = tx.clone();
+        let shared = StdArc::new(Shared { rx: ::std::sync::Mutex::new(rx) });
+        (
+            Sender { inner: tx, live: StdArc::new(AtomicUsize::new(1)), _shared: shared.clone() },
+            Receiver { shared, tick, closed: ::std::cell::Cell::new(false) },
+        )
+    }
+
+    impl<T> Sender<T> {
+        pub fn send(&self, t: T) -> Result<(), SendError<T>> {
+            self.inner.send(Item::Msg(t)).map_err(|e| match e.0 {
+                Item::Msg(t) => SendError(t),
+                _ => unreachable!(),
+            })
+        }
+    }
+
+    impl<T> Clone for Sender<T> {
+        fn clone(&self) -> Self {
+            self.live.fetch_add(1, Ordering::SeqCst);
+            Sender { inner: self.inner.clone(), live: self.live.clone(), _shared: self._shared.clone() }
+        }
+    }
+
+    impl<T> Drop for Sender<T> {
+        fn drop(&mut self) {
+            if self.live.fetch_sub(1, Ordering::SeqCst) == 1 {
+                let _ = self.inner.send(Item::Closed);
+            }
+        }
+    }
+
+    impl<T> ::std::fmt::Debug for Sender<T> {
+        fn fmt(&self, f: &mut ::std::fmt::Formatter<'_>) -> ::std::fmt::Result {
+            f.write_str("Sender { .. }")
+        }
+    }
+
+    impl<T: Send + 'static> Receiver<T> {
+        pub fn recv(&self) -> Result<T, RecvError> {
+            if self.closed.get() {
+                return Err(RecvError);
+            }
+            loop {
+                match self.shared.rx.lock().unwrap().recv() {
+                    Ok(Item::Msg(t)) => return Ok(t),
+                    Ok(Item::Tick) => continue,
+                    Ok(Item::Closed) | Err(_) => {
+                        self.closed.set(true);
+                        return Err(RecvError);
+                    }
+                }
+            }
+        }
+
+        pub fn try_recv(&self) -> Result<T, TryRecvError> {
+            if self.closed.get() {
+                return Err(TryRecvError::Disconnected);
+            }
+            loop {
+                match self.shared.rx.lock().unwrap().try_recv() {
+                    Ok(Item::Msg(t)) => return Ok(t),
+                    Ok(Item::Tick) => continue,
+                    Ok(Item::Closed) | Err(TryRecvError::Disconnected) => {
+                        self.closed.set(true);
+                        return Err(TryRecvError::Disconnected);
+                    }
+                    Err(TryRecvError::Empty) => return Err(TryRecvError::Empty),
+                }
+            }
+        }
+
+        pub fn recv_timeout(&self, d: Duration) -> Result<T, RecvTimeoutError> {
+            if self.closed.get() {
+                return Err(RecvTimeoutError::Disconnected);
+            }
+            let deadline = clock::arming_base()
+                .saturating_add(u64::try_from(d.as_nanos()).unwrap_or(u64::MAX));
+            // loom's Sender is not Sync; it is only ever used by the one thread
+            // advancing the clock at that moment
+            let tick = ::std::sync::Mutex::new(self.tick.clone());
+            let keep = self.shared.clone();
+            let id = clock::register_wake(
+                deadline,
+                clock::Wake::Call(StdArc::new(move || {
+                    let _keep = &keep;
+                    let _ = tick.lock().unwrap().send(Item::Tick);
+                })),
+            );
+            let Some(id) = id else {
+                // deadline already reached: only what is immediately available
+                return match self.try_recv() {
+                    Ok(t) => Ok(t),
+                    Err(TryRecvError::Empty) => Err(RecvTimeoutError::Timeout),
+                    Err(TryRecvError::Disconnected) => Err(RecvTimeoutError::Disconnected),
+                };
+            };
+            let r = loop {
+                match self.shared.rx.lock().unwrap().recv() {
+                    Ok(Item::Msg(t)) => break Ok(t),
+                    Ok(Item::Tick) => {
+                        if clock::peek_nanos() >= deadline {
+                            break Err(RecvTimeoutError::Timeout);
+                        }
+                    }
+                    Ok(Item::Closed) | Err(_) => {
+                        self.closed.set(true);
+                        break Err(RecvTimeoutError::Disconnected);
+                    }
+                }
+            };
+            clock::deregister(id);
+            r
+        }
+    }
+}
+
+/// Mock of `std::net::TcpStream` for the blocking client: two byte pipes built
+/// on the shadow `Mutex`/`Condvar` (so loom schedules every read, write, close
+/// and the virtual clock drives write timeouts). `TcpStream::connect` returns
+/// the stream the harness registered; the harness keeps the peer end.
+pub mod net_shadow {
+    use crate::verif_loom::std_shadow::sync::{Condvar, Mutex};
+    use crate::verif_loom::std_shadow::time::Instant;
+    use ::std::collections::VecDeque;
+    use ::std::io::{self, ErrorKind, Read, Write};
+    pub use ::std::net::{Shutdown, SocketAddr, ToSocketAddrs};
+    use ::std::sync::Arc as StdArc;
+    use ::std::time::Duration;
+
+    struct PipeState {
+        buf: VecDeque<u8>,
+        /// the writing side shut down or dropped: reader sees EOF after draining
+        wr_closed: bool,
+        /// the reading side shut down or dropped: reads return EOF, writes fail
+        rd_closed: bool,
+        /// bytes the pipe holds before a writer blocks (0 = unbounded)
+        capacity: usize,
+        /// max bytes accepted by one write call (0 = unlimited)
+        quota: usize,
+        total: u64,
+    }
+
+    struct Pipe {
+        st: Mutex<PipeState>,
+        cv: Condvar,
+    }
+
+    impl Pipe {
+        fn new() -> StdArc<Pipe> {
+            StdArc::new(Pipe {
+                st: Mutex::new(PipeState {
+                    buf: VecDeque::new(),
+                    wr_closed: false,
+                    rd_closed: false,
+                    capacity: 0,
+                    quota: 0,
+                    total: 0,
+                }),
+                cv: Condvar::new(),
+            })
+        }
+        fn read(&self, out: &mut [u8]) -> io::Result<usize> {
+            if out.is_empty() {
+                return Ok(0);
+            }
+            let mut g = self.st.lock().unwrap();
+            loop {
+                if g.rd_closed {
+                    return Ok(0);
+                }
+                if !g.buf.is_empty() {
+                    let n = out.len().min(g.buf.len());
+                    for slot in out.iter_mut().take(n) {
+                        *slot = g.buf.pop_front().unwrap();
+                    }
+                    self.cv.notify_all();
+                    return Ok(n);
+                }
+                if g.wr_closed {
+                    return Ok(0);
+                }
+                g = self.cv.wait(g).unwrap();
+            }
+        }
+        fn write(&self, data: &[u8], timeout: Option<Duration>) -> io::Result<usize> {
+            if data.is_empty() {
+                return Ok(0);
+            }
+            let deadline = timeout.map(|d| Instant::now() + d);
+            let mut g = self.st.lock().unwrap();
+            loop {
+                if g.wr_closed || g.rd_closed {
+                    return Err(io::Error::new(ErrorKind::BrokenPipe, "mock stream closed"));
+                }
+                let room = if g.capacity == 0 {
+                    usize::MAX
+                } else {
+                    g.capacity.saturating_sub(g.buf.len())
+                };
+                if room > 0 {
+                    let mut n = data.len().min(room);
+                    if g.quota > 0 {
+                        n = n.min(g.quota);
+                    }
+                    g.buf.extend(&data[..n]);
+                    g.total += n as u64;
+                    self.cv.notify_all();
+                    return Ok(n);
+                }
+                match deadline {
+                    None => g = self.cv.wait(g).unwrap(),
+                    Some(d) => {
+                        let now = Instant::now();
+                        if now >= d {
+                            return Err(io::Error::new(ErrorKind::WouldBlock, "mock write timed out"));
+                        }
+                        g = self.cv.wait_timeout(g, d - now).unwrap().0;
+                    }
+                }
+            }
+        }
+        fn close_writer(&self) {
+            self.st.lock().unwrap().wr_closed = true;
+            self.cv.notify_all();
+        }
+        fn close_reader(&self) {
+            self.st.lock().unwrap().rd_closed = true;
+            self.cv.notify_all();
+        }
+    }
+
+    struct EndInner {
+        rd: StdArc<Pipe>,
+        wr: StdArc<Pipe>,
+        write_timeout: Mutex<Option<Duration>>,
+    }
+
+    impl Drop for EndInner {
+        fn drop(&mut self) {
+            self.wr.close_writer();
+            self.rd.close_reader();
+        }
+    }
+
+    /// All clones (`try_clone`) share one endpoint; it closes when the last drops.
+    pub struct TcpStream {
+        inner: StdArc<EndInner>,
+    }
+
+    ::loom::lazy_static! {
+        static ref REGISTRY: ::loom::sync::Mutex<Vec<TcpStream>> = ::loom::sync::Mutex::new(Vec::new());
+    }
+
+    /// Harness: create a connected pair.
+    pub fn pair() -> (TcpStream, TcpStream) {
+        let ab = Pipe::new();
+        let ba = Pipe::new();
+        (
+            TcpStream { inner: StdArc::new(EndInner { rd: ba.clone(), wr: ab.clone(), write_timeout: Mutex::new(None) }) },
+            TcpStream { inner: StdArc::new(EndInner { rd: ab, wr: ba, write_timeout: Mutex::new(None) }) },
+        )
+    }
+
+    /// Harness: the next `TcpStream::connect` returns `stream`.
+    pub fn register(stream: TcpStream) {
+        REGISTRY.lock().unwrap().push(stream);
+    }
+
+    impl TcpStream {
+        pub fn connect<A: ToSocketAddrs>(_addr: A) -> io::Result<TcpStream> {
+            REGISTRY
+                .lock()
+                .unwrap()
+                .pop()
+                .ok_or_else(|| io::Error::new(ErrorKind::ConnectionRefused, "no mock stream registered"))
+        }
+        pub fn try_clone(&self) -> io::Result<TcpStream> {
+            Ok(TcpStream { inner: self.inner.clone() })
+        }
+        pub fn set_nodelay(&self, _v: bool) -> io::Result<()> {
+            Ok(())
+        }
+        pub fn set_write_timeout(&self, d: Option<Duration>) -> io::Result<()> {
+            *self.inner.write_timeout.lock().unwrap() = d;
+            Ok(())
+        }
+        pub fn set_read_timeout(&self, _d: Option<Duration>) -> io::Result<()> {
+            Ok(())
+        }
+        pub fn shutdown(&self, how: Shutdown) -> io::Result<()> {
+            if matches!(how, Shutdown::Write | Shutdown::Both) {
+                self.inner.wr.close_writer();
+            }
+            if matches!(how, Shutdown::Read | Shutdown::Both) {
+                self.inner.rd.close_reader();
+            }
+            Ok(())
+        }
+        /// Harness: the pipe this end writes into holds at most `capacity`
+        /// bytes and accepts at most `quota` bytes per write call (0 = no limit).
+        pub fn verif_limit_outgoing(&self, capacity: usize, quota: usize) {
+            let mut g = self.inner.wr.st.lock().unwrap();
+            g.capacity = capacity;
+            g.quota = quota;
+        }
+        /// Harness: total bytes ever written by this end.
+        pub fn verif_written(&self) -> u64 {
+            self.inner.wr.st.lock().unwrap().total
+        }
+    }
+
+    impl Read for TcpStream {
+        fn read(&mut self, buf: &mut [u8]) -> io::Result<usize> {
+            self.inner.rd.read(buf)
+        }
+    }
+    impl Read for &TcpStream {
+        fn read(&mut self, buf: &mut [u8]) -> io::Result<usize> {
+            self.inner.rd.read(buf)
+        }
+    }
+    impl Write for TcpStream {
+        fn write(&mut self, buf: &[u8]) -> io::Result<usize> {
+            let t = *self.inner.write_timeout.lock().unwrap();
+            self.inner.wr.write(buf, t)
+        }
+        fn flush(&mut self) -> io::Result<()> {
+            Ok(())
+        }
+    }
+    impl Write for &TcpStream {
+        fn write(&mut self, buf: &[u8]) -> io::Result<usize> {
+            let t = *self.inner.write_timeout.lock().unwrap();
+            self.inner.wr.write(buf, t)
+        }
+        fn flush(&mut self) -> io::Result<()> {
+            Ok(())
+        }
+    }
 }
